@@ -19,6 +19,7 @@ mod huff;
 mod metablock;
 mod fragment;
 mod zopfli;
+mod rs2lean_diff;
 
 fn main() {
     let args = util::parse_args();
@@ -41,6 +42,7 @@ fn main() {
         "fragment" => fragment::run_cmd(&args),
         "zopfli" => zopfli::run_cmd(&args),
         "concat1" => concat::run_one(&args),
+        "rs2lean" => rs2lean_diff::run_cmd(&args),
         other => {
             eprintln!("unknown subcommand {}", other);
             std::process::exit(2);
